@@ -38,3 +38,10 @@ Definition judge_tid (c : tcase) : Z :=
   let ok := stable c && injective c in
   if in_domain c then (if ok then (if agrees c then 0 else 1) else 2)
   else if agrees c then (if ok then 0 else 3) else 1.
+
+(* native (unscheduled) contention probe, implementation only: the ids that the threads of one round obtained from their first
+   call (counter preset far from the sentinel): 0 pairwise different, 2 some id handed to two threads *)
+Fixpoint nodupb (l : list Z) : bool :=
+  match l with [] => true | x :: r => negb (existsb (Z.eqb x) r) && nodupb r end.
+Definition judge_round (l : list Z) : Z := if nodupb l then 0 else 2.
+
